@@ -246,6 +246,12 @@ func (x *Exec) doUnOp(i *ssa.UnOp) {
 			}
 		}
 		x.bind(i, r)
+		if l.Kind != LCell && !x.discovering {
+			if _, ok := i.Type().Underlying().(*types.Slice); ok && !isByteSlice(i.Type()) {
+				t := x.vals[i].T
+				x.smt.assume(implies(x.reach, "(and (>= (slen "+t+") 0) (>= (soff "+t+") 0))"))
+			}
+		}
 	case token.NOT:
 		x.bind(i, tv(not(x.termOf(v))))
 	case token.SUB:
